@@ -5,11 +5,11 @@ import (
 	_ "github.com/plgd-dev/go-coap/v3/dtls"
 	_ "github.com/plgd-dev/go-coap/v3/dtls/server"
 	_ "github.com/plgd-dev/go-coap/v3/mux"
+	_ "github.com/plgd-dev/go-coap/v3/pkg/runner/periodic"
 	_ "github.com/plgd-dev/go-coap/v3/tcp"
 	_ "github.com/plgd-dev/go-coap/v3/tcp/server"
 	_ "github.com/plgd-dev/go-coap/v3/udp"
 	_ "github.com/plgd-dev/go-coap/v3/udp/server"
-	_ "github.com/plgd-dev/go-coap/v3/pkg/runner/periodic"
 )
 
 func main() {}
